@@ -61,7 +61,9 @@ def move_kernel(ctx: Ctx, fi: FuncInfo, kind: str, enc2: bool,
     pieces other checks (C01) reuse."""
     P = fi.params
     arr = P[0]
-    i1 = Poly.var("i1")
+    # the kernel's parameters by position: (packing, [bin_id,] bin_start,
+    # [bin_end,] i1)
+    i1 = Poly.var(P[-1])
     k0 = kvar(0)
     own = {c: _cell(arr, i1, C[c]) for c in C}
     oth = {c: _cell(arr, k0, C[c]) for c in C}
@@ -89,8 +91,8 @@ def move_kernel(ctx: Ctx, fi: FuncInfo, kind: str, enc2: bool,
     _k, lo, hi, term, init, guard = M[1], M[2], M[3], M[4], M[5], M[6]
     T = ite(guard, term, INF) if guard != ("true",) else term
     # ---- iteration window
-    want_lo = Poly.var("bin_start")
-    want_hi = Poly.var("bin_end") if enc2 else i1
+    want_lo = Poly.var(P[2] if enc2 and len(P) >= 5 else P[1])
+    want_hi = Poly.var(P[3]) if enc2 and len(P) >= 5 else i1
     okw = lo == want_lo and hi == want_hi
     ctx.ob(rule, fi, fi.node, okw,
            f"{name}: blockers are rows [{show(lo)}, {show(hi)}); "
@@ -129,7 +131,7 @@ def move_kernel(ctx: Ctx, fi: FuncInfo, kind: str, enc2: bool,
         for a in all_atoms(T):
             pass
         from sa.symterm import _eq
-        bin_eq = _eq(_cell(arr, k0, C["IDX_BIN"]), Poly.var("bin_id"))
+        bin_eq = _eq(_cell(arr, k0, C["IDX_BIN"]), Poly.var(P[1]))
     n = 0
     bad = None
     try:
@@ -427,13 +429,21 @@ def _stateless_kernel(ctx: Ctx, dec: FuncInfo, enc2: bool,
     repo = ctx.repo
     problems: list[tuple[ast.AST, str, str]] = []
     n_loads = [0]
+    # the bin counter: the local that the decoder returns; the bin tables:
+    # the decoder's last two parameters
+    cnt_nm = next((n.id for r in ast.walk(dec.node) if isinstance(
+        r, ast.Return) and r.value is not None for n in ast.walk(r.value)
+        if isinstance(n, ast.Name) and n.id not in ("int",)), "bin_id")
+    tables = tuple(dec.params[5:7]) if len(dec.params) >= 7 else (
+        "bin_starts", "bin_ends")
+    packing_nm = dec.params[1] if len(dec.params) > 1 else "y"
 
     def load_hook(an: Analyzer, st: Any, arr: Any, fixed: dict[int, Lin],
                   node: ast.AST) -> None:
         if not an.loop_syms:
             return
         k = Lin.sym(an.loop_syms[0])
-        if arr.name == "y" and 0 in fixed:
+        if arr.name == packing_nm and 0 in fixed:
             n_loads[0] += 1
             idx = fixed[0]
             cur = entails(st.facts, idx - k) and entails(st.facts, k - idx)
@@ -446,9 +456,9 @@ def _stateless_kernel(ctx: Ctx, dec: FuncInfo, enc2: bool,
                                  "current row nor provably an earlier one "
                                  "(stale contents of the destination could "
                                  "leak into the result)"))
-        if arr.name in ("bin_starts", "bin_ends") and 0 in fixed:
+        if arr.name in tables and 0 in fixed:
             n_loads[0] += 1
-            b = st.vals.get("bin_id")
+            b = st.vals.get(cnt_nm)
             idx = fixed[0]
             if not (isinstance(b, Lin) and entails(
                     st.facts, b - 1 - idx) and entails(st.facts, idx)):
